@@ -1105,7 +1105,8 @@ class _PolyHelper2D:
                     if 0 not in val and any(v > max_cross for v in val):
                         self.vandermonde[:, idx] = 0
 
-        self.poly_order = poly_orders
+        # copy so that later changes to the caller's poly_order array cannot alter the cache key
+        self.poly_order = np.array(poly_orders)
         self.max_cross = max_cross
 
     @property
